@@ -47,6 +47,12 @@ check("C05", "model_checking",
       "sequentially consistent interleavings only (kira uses SeqCst on these words); resume_at may become audible one internal buffer after it begins (an instant fade-in needs one parameter update); continuous speeds are represented by the listed lattice.",
       "DESIGN.md §3 C05")
 
+check("C07", "model_checking",
+      "stateless exploration of real thread interleavings (iterative context bounding, DFS over schedules) at the granularity of single atomic operations inside the command channel, plus exhaustive per-command-kind differential enumeration",
+      "E2: seven two-thread harnesses (generic command channel with k=1,2,3 writes vs three reads; two channels of different kinds; StaticSoundHandle::set_volume x2 vs three callbacks; ClockHandle::stop vs callbacks; play + set_volume before the first callback vs callbacks) are explored exhaustively over all schedules (unbounded for the channel harnesses, preemption bound 3-5 for the manager harnesses), with scheduling points before every atomic operation of triple_buffer / rtrb / atomic-arena (instrumented copies patched in by the harness) and at kira's verif sync points; each execution is judged for: applied sequence is a duplicate-free subsequence of the written one, payload redundancy intact (not torn), a write that returned before a read began is visible to it (not late), last write in force at the end (not lost). E1: for each of 58 command kinds of all built-in handles (sounds, tracks, sends, spatial, listener, clock, LFO, tweener, all effect parameters): command before the first callback equals building with the value, a burst equals its last command, the effect appears in the next callback and not earlier/later, commands of different kinds/resources do not interfere.",
+      "sequentially consistent interleavings of atomic operations; weak-memory effects inside triple_buffer are not modelled; streaming seek / loop-region commands that are read by the decoder thread are exercised under C09/C10.",
+      "DESIGN.md §3 C07")
+
 NOT_YET = {}
 
 def main():
